@@ -48,6 +48,9 @@ SPEC = {
                    "(the other writer has worked on the file in between, e.g. allocated in the page the first one has just "
                    "added), plus arbitrary positions. Independent-encoder files also with headers longer than the "
                    "library's minimum (up to one page), non-zero bytes after the metadata's NUL and metadata over 512 bytes. "
+                   "The header cases observe the header through openMapped on a fresh file (one process creates files with metadata "
+                   "of many lengths, long before short). A writer that can no longer open the file it wrote ends its session "
+                   "as a `lockout` case (oracle own-file-refused), a panicking race writer is recorded, not fatal. "
                    "Oracles added for every sequence: the metadata of the file stays the one it was created with; one newCounter "
                    "grows the file by at most two pages (a file the code blew up is reported by size, not put on the wire). "
                    "distinct = distinct case lines; every case compares implementation observables "
